@@ -1,15 +1,38 @@
 import PhyModel.Proofs.RunLoopProofs
 import PhyModel.Proofs.C19Example
+import PhyModel.Proofs.RunOKExample
+import PhyModel.Props.C03
+import PhyModel.Props.C15
 import Mathlib.Tactic.NormNum
+import Mathlib.Tactic.IntervalCases
 /-! # C19 — a run on valid input completes and records only finite, complete trees
 
-The statements are about the run-loop skeleton `Model/RunLoop.lean`, in which every Python failure
-point the model can express is an explicit `Except` branch (list index, `choice` from an empty list,
-`multinomial` with a negative count, division by a zero weight sum, `%` by zero, the code's asserts),
-and about the proposal / weight tables of `Model/Proposal.lean`.  They hold for every particle count
-from 1, every number of data points from 1, every outcome of every random draw and every sequence of
-iteration durations.  What a model cannot exclude — arbitrary Python exceptions from the numerical
-and graph libraries — is listed as an open obligation and explored on the real code by the check. -/
+The property has three clauses; which theorem covers which:
+
+1. **"the sampler finishes without an exception"** — the statements about the run-loop skeleton
+   `Model/RunLoop.lean`, in which every Python failure point the model can express is an explicit
+   `Except` branch (list index, `choice` from an empty list, `multinomial` with a negative count,
+   division by a zero weight sum, `%` by zero, the asserts of the swarm code): `resample_index_ok`,
+   `subtree_choice_nonempty_or_fallback`, `normalise_ok`, `weights_positive` (no log-weight is `-inf`, so
+   no weight sum is zero), `schedule_total`, `schedule_untimed`, `run_guards_ok`.  They hold for every
+   particle count from 1, every number of data points from 1, every outcome of every random draw and
+   every sequence of iteration durations.
+2. **"every recorded entry is a well-formed tree over all data points"** — `support_complete_wf`
+   (every tree listed by each of the five sampler models `SMC.pgStep`, `SMC.smcStep`,
+   `Moves.dataPointMove`, `Moves.pruneRegraft`, `Moves.subtreeMove` for a complete well-formed tree is a
+   complete well-formed tree on the same data), `run_states_ok` (by induction: every state of a run —
+   burn-in sweeps, main sweeps, any schedule, any concentration values, any outcome of every draw),
+   `run_entries_ok` (the recorded entries of `TraceLoop.runMain`, the stateful loop of C15, when the
+   sampler oracle returns a store reached by legal edits (C07 `Legal`) whose tree is listed by the sweep
+   model: every entry restores with `Tree.from_dict` to a store satisfying the invariants of C07 / C06,
+   holding every data point exactly once and representing a well-formed tree).
+3. **"with a finite `log_p_one`"** — `run_states_ok` (`0 < pOne` for every reachable tree, every
+   positive concentration value: C03 `pOne_pos`) and `run_entries_ok` (the recorded value is the density
+   of the restored tree under the recorded concentration value, C15 / C06 `rebuild_eq`, and positive).
+
+What no model here can exclude — exceptions raised inside the numerical and graph libraries, floating
+point underflow, operating-system failures — is listed as the remaining open obligation and explored on
+the real code by the boundary cross-product of the check. -/
 
 namespace PhyModel.Props.C19
 open PhyModel PhyModel.RunLoop PhyModel.C19P
@@ -204,6 +227,156 @@ example : runSchedule ⟨2, 5, 2, 100, 2, 1, 2, true⟩ (fun i => i == 1) (fun _
     = .ok ⟨2, 1, [0, 0], 3, 6, 1⟩ := by decide
 example := run_guards_ok ⟨2, 5, 2, 100, 2, 1, 2, true⟩ (by decide) (by decide) (by decide) (some 0) (fun _ => 1) (fun _ => 1)
 
--- OBLIGATION-OPEN run_ok: full statement "for every valid data set and every CLI-accepted option combination run_phyclone_chain returns a trace whose entries are well-formed trees over all data with finite log_p_one" — the guards modelled here (index, empty choice, negative draws, zero weight sum, modulo, asserts of the swarm code) are discharged; exceptions raised inside rustworkx / numpy / numba / scipy, float underflow of log-weights to -inf on large inputs, the `_update_path_to_root` asserts, and well-formedness / finiteness of the recorded tree (carried by C07, C15, C03 on their models) are outside this model and are explored on the real code by the boundary cross-product of the check
+/-! ## The recorded trees: complete, well formed, finite density
+
+`RunOK.Holds c D x` — *`x` is a complete well-formed tree on the data points `D`*: `PG.WFT c x`
+(canonical form, no empty clone, data indices pairwise distinct and below the sentinel of the canonical
+order, no outlier when outlier modelling is off) and the data points of `x`, clones and outliers
+together, are exactly `D` (`(x.f.all ++ x.out).Perm D`).  `RunOK.AllD P d` — every outcome the finite
+distribution `d` *lists* satisfies `P` (also outcomes listed with probability 0).
+`RunOK.Params` — the options of a run the sampler models depend on; `p.run α`, `p.mv α` are the
+configurations of the SMC samplers and of the auxiliary moves under the concentration value `α`
+(`run.py:setup_kernel`, `setup_samplers`: the data-point move uses the outlier set iff outlier
+modelling is on). -/
+
+open PhyModel.RunOK PhyModel.Store PhyModel.Store.Store PhyModel.TraceLoop in
+/-- **(a) Every sampler model of a sweep maps complete well-formed trees to complete well-formed
+trees.**  For every data set, proposal kind, outlier setting, particle count (0 included: the swarm is
+then empty and nothing is listed), threshold and concentration value, and every well-formed tree `x`
+holding the data points `D`: every tree listed by the whole-tree particle-Gibbs update `SMC.pgStep`, by
+the burn-in sampler `SMC.smcStep`, by the data-point move `Moves.dataPointMove`, by the prune-regraft
+move `Moves.pruneRegraft` and by the random-subtree update `Moves.subtreeMove` (its fallback to the
+whole-tree update when every data point is an outlier included) is a well-formed tree holding `D`: no
+data point is lost or duplicated, no clone is left empty, no outlier appears when outlier modelling is
+off. -/
+theorem support_complete_wf (p : Params) (α : ℚ) (D : List ℕ) (x : T) (hx : Holds p.c D x) :
+    AllD (Holds p.c D) (SMC.pgStep (p.run α) x) ∧ AllD (Holds p.c D) (SMC.smcStep (p.run α) x) ∧
+    AllD (Holds p.c D) (Moves.dataPointMove (p.mv α) x) ∧ AllD (Holds p.c D) (Moves.pruneRegraft (p.mv α) x) ∧
+    AllD (Holds p.c D) (Moves.subtreeMove (p.run α) x) :=
+  support_complete_wf_proof p α hx
+
+/-- non-vacuity (`Proofs/RunOKExample.lean`: the two-point data set, semi-adapted proposal, outliers
+on, two particles): the single-clone tree is complete and well formed, and the samplers do list other
+trees — the burn-in sampler lists "0 above 1", particle Gibbs moves data point 1 of the two-clone tree
+to the outliers, prune-regraft moves a clone to the top level -/
+example : RunOK.Holds RunOK.Ex.exP.c [0, 1] RunOK.Ex.x0 ∧
+    RunOK.Listed (SMC.smcStep (RunOK.Ex.exP.run 1) RunOK.Ex.x0) RunOK.Ex.xA ∧
+    RunOK.Listed (SMC.pgStep (RunOK.Ex.exP.run 1) RunOK.Ex.xC) RunOK.Ex.xD ∧
+    RunOK.Listed (Moves.pruneRegraft (RunOK.Ex.exP.mv 1) RunOK.Ex.xA) RunOK.Ex.xC :=
+  ⟨RunOK.single_holds _ (by simp) (by decide) (by decide), RunOK.Ex.smc_lists, RunOK.Ex.pg_lists,
+    RunOK.Ex.pr_lists.1⟩
+
+open PhyModel.RunOK in
+/-- **(b), (c) Every state of a run is a complete well-formed tree with a finite `log_p_one`.**
+`ChainOut p sched x0 y`: `y` is reached from `x0` by the sweeps of the schedule `sched` — each a
+burn-in sweep (`SMC.smcStep`) or a main sweep (`SMC.pgStep` or `Moves.subtreeMove`), followed by
+`num_samples_data_point` data-point moves and `num_samples_prune_regraph` prune-regraft moves, under
+its own concentration value — for *some* outcome of every draw.  For a data set with positive
+likelihoods and outlier priors in `[0,1)` (C03 `PosData`) and any start tree that is complete and well
+formed on data points of the data set — in particular `Tree.get_single_node_tree`, `single D` — every
+such `y` is complete and well formed on the same data, and `pOne` of it is positive under every
+positive concentration value. -/
+theorem run_states_ok (p : Params) (hd : C03.PosData p.dt) (D : List ℕ) (hD : ∀ i ∈ D, i < p.dt.n)
+    (x0 : T) (h0 : Holds p.c D x0) (sched : List (Phase × ℚ)) (y : T) (h : ChainOut p sched x0 y) :
+    Holds p.c D y ∧ ∀ α : ℚ, 0 < α → 0 < Density.pOne p.dt α y.f y.out := by
+  have hy := chain_holds p sched x0 y h0 h
+  refine ⟨hy, fun α hα => C03.pOne_pos p.dt hd hα y.f y.out ?_⟩
+  intro i hi
+  exact hD i (hy.perm.subset hi)
+
+open PhyModel.RunOK in
+/-- the start tree of `run_phyclone_chain`: all data points in one clone -/
+theorem run_start_ok (c : Proposal.Cfg) (D : List ℕ) (hne : D ≠ []) (hnd : D.Nodup)
+    (hbig : ∀ a ∈ D, a < Orders.Forest.big) : Holds c D (single D) :=
+  single_holds c hne hnd hbig
+
+open PhyModel.RunOK PhyModel.Store in
+/-- the start store of a chain: any store built from the empty tree `Tree(grid_size)` by a history of
+legal edits within the data set (as `Tree.get_single_node_tree` does: `create_root_node`, then the data
+points one by one) satisfies the store invariants — C07 `inv_run`, C06 `cacheOK_run_legal` -/
+theorem run_start_store_ok (dt : Data) (hd : C03.PosData dt) (s0 : Store)
+    (h : LegalFrom dt (Store.init dt) s0) : C15.Inv dt s0 :=
+  sinv_of_legalFrom (fun i s k hi hs hk => ne_of_gt (hd.L_pos i s k hi hs hk)) (sinv_init dt) h
+
+theorem exData_pos : C03.PosData exData where
+  G_pos := by decide
+  L_pos := by
+    intro i s k hi hs hk
+    simp only [exData, Data.n, List.length] at hi hs hk
+    interval_cases i <;> interval_cases s <;> interval_cases k <;>
+      norm_num [exData, Data.L, getQ]
+  op_range := by
+    intro i hi
+    simp only [exData, Data.n, List.length] at hi
+    interval_cases i <;> norm_num [exData, Data.opOf]
+
+/-- non-vacuity: the start store of the example is one `create_root_node` away from the empty tree and
+represents the single-clone tree -/
+example : C15.Inv exData RunOK.Ex.s0 ∧ RunOK.absT RunOK.Ex.s0 = RunOK.single [0, 1] :=
+  ⟨run_start_store_ok exData exData_pos RunOK.Ex.s0 RunOK.Ex.legal0, by decide +kernel⟩
+
+/-- non-vacuity: a burn-in sweep and a main sweep from the single-clone tree of the two-point data set
+end in "clone {0}, data point 1 an outlier" -/
+example : RunOK.ChainOut RunOK.Ex.exP [(.burnin, 1), (.main, 1)] (RunOK.single [0, 1]) RunOK.Ex.xD := by
+  have e0 : RunOK.single [0, 1] = RunOK.Ex.x0 := by decide +kernel
+  rw [e0]
+  refine ⟨RunOK.Ex.xC, ?_, RunOK.Ex.xD, ?_, rfl⟩
+  · have := RunOK.Ex.sweepB
+    rwa [RunOK.Ex.abs0, RunOK.Ex.absB] at this
+  · have := RunOK.Ex.sweepM
+    rwa [RunOK.Ex.abs1, RunOK.Ex.absM] at this
+example := run_states_ok RunOK.Ex.exP exData_pos [0, 1] (by decide) (RunOK.single [0, 1])
+  (run_start_ok _ [0, 1] (by simp) (by decide) (by decide))
+
+open PhyModel.RunOK PhyModel.Store PhyModel.Store.Store PhyModel.TraceLoop in
+/-- **The recorded trace.**  `TraceLoop.runMain` (C15) is the stateful main loop of
+`_run_main_sampler`: it carries the store (the model of `phyclone.tree.Tree`) and the concentration
+value; samplers, concentration draw, clock and time-limit comparison are oracles.  `burnState mvB b`
+is the store after `b` burn-in iterations.  Hypotheses:
+
+* the data set has positive likelihoods and outlier priors in `[0,1)` (C03 `PosData`);
+* the start store satisfies the store invariants (`C15.Inv`: C07 `WF`, `Full`, `Aligned`, C06 `CacheOK`)
+  and represents (`absT`: forget names, graph indices, caches) a complete well-formed tree on
+  `0 .. n-1`;
+* **the sampler oracle is instantiated by an element of the support of the sweep model**
+  (`RealisesAt`), in each of the `b` burn-in iterations and each of the `num_iters` main iterations,
+  at the store the chain is in: the store it returns is one of the live trees of a history of edits
+  started from the current store, each edit `Legal` where it is applied (C07: what the samplers
+  compose) and within the data set; and the tree it represents is listed by the sweep model
+  (`SweepOut`: burn-in `SMC.smcStep`, main `SMC.pgStep` or `Moves.subtreeMove`; then the data-point and
+  prune-regraft moves) for the tree the current store represents, under some concentration value;
+* the concentration oracle returns positive values (the Gamma draw, floored at `1e-10`: C13).
+
+Conclusion, for every thinning interval, time limit outcome, concentration update on or off: every
+entry of the trace restores with `Tree.from_dict` to a store that satisfies the store invariants again,
+lists every data point `0 .. n-1` exactly once (`dataCompleteB`), represents a complete well-formed
+tree, and whose `log_p_one` under the entry's recorded concentration value is the entry's recorded
+value — which is positive, i.e. finite in the log domain.  (That the *real* samplers satisfy `RealisesAt`
+is not an obligation of any model: it is the trusted correspondence — the exact transition rows of the five
+real samplers are compared with these very models by the checks of C01 / C04, their edits with the store
+model by C06 / C07 / C15.)  Used: C07 `inv_run` (legal histories keep
+`WF`, `Full`, `Aligned`), C06 `cacheOK_run_legal` and `pOneC_eq` (the cached density is the rebuilt one),
+C15 `mkEntry_restores` (round trip), C03 positivity, and `support_complete_wf`. -/
+theorem run_entries_ok (p : Params) (hd : C03.PosData p.dt)
+    (s0 : Store) (h0 : C15.Inv p.dt s0) (h0' : Holds p.c (List.range p.dt.n) (absT s0))
+    (mvB : ℕ → Store → Store) (b : ℕ) (hB : ∀ i, i < b → RealisesAt p .burnin mvB i (burnState mvB i s0))
+    (o : Oracles) (hconc : ∀ i α s, 0 < α → 0 < o.conc i α s) (α0 : ℚ) (hα0 : 0 < α0) (cu : Bool)
+    (thin numIters : ℕ)
+    (hM : ∀ k, k < numIters → RealisesAt p .main o.moves k (stateAt o cu ⟨burnState mvB b s0, α0⟩ k).tree) :
+    ∀ e ∈ (runMain p.dt o cu thin numIters ⟨burnState mvB b s0, α0⟩).1,
+      ∃ s', fromDict p.dt e.tree = some s' ∧ C15.Inv p.dt s' ∧ dataCompleteB p.dt.n s' = true ∧
+        Holds p.c (List.range p.dt.n) (absT s') ∧ pOneC p.dt e.alpha s' = e.logPOne ∧ 0 < e.logPOne :=
+  run_entries_ok_proof p hd.G_pos hd.L_pos hd.op_range s0 ⟨h0, h0'⟩ mvB b hB o hconc α0 hα0 cu thin numIters hM
+
+/-- non-vacuity (`Proofs/RunOKExample.lean`): one burn-in and one main iteration on the two-point data
+set, the oracles building their stores by legal edits on a fresh handle; every hypothesis holds, the
+trace has two entries, and they record different trees with different densities -/
+example := run_entries_ok RunOK.Ex.exP exData_pos RunOK.Ex.s0 RunOK.Ex.sinv0 RunOK.Ex.holds0 RunOK.Ex.mvB 1
+  RunOK.Ex.realB RunOK.Ex.exO (fun _ _ _ _ => by norm_num [RunOK.Ex.exO]) 1 one_pos true 1 1 RunOK.Ex.realM
+example : ((TraceLoop.runMain exData RunOK.Ex.exO true 1 1 ⟨RunOK.burnState RunOK.Ex.mvB 1 RunOK.Ex.s0, 1⟩).1.map
+      fun e => (e.iter, e.alpha, RunOK.absT ((Store.Store.fromDict exData e.tree).getD RunOK.Ex.s0)))
+    = [(0, 1, RunOK.Ex.xC), (0, 2, RunOK.Ex.xD)] := by decide +kernel
+
+-- OBLIGATION-OPEN run_ok: full statement "for every valid data set and every CLI-accepted option combination run_phyclone_chain returns a trace whose entries are well-formed trees over all data with finite log_p_one" — on the models every clause is now proved (guards of the run loop and of the swarm code: resample_index_ok … run_guards_ok; completeness / well-formedness / finite density of every reachable state and every recorded entry: support_complete_wf, run_states_ok, run_entries_ok, composing C03, C06, C07, C15); what remains is outside any model: exceptions raised inside rustworkx / numpy / numba / scipy (including the `_update_path_to_root` and cache asserts that guard their results), float underflow of log-weights to -inf on large inputs (the models use exact rationals, where a positive weight never rounds to 0), and OS-level failures (memory, process pool, file system, clock); these are explored on the real code by the boundary cross-product and the CLI boundary cases of the check
 
 end PhyModel.Props.C19
